@@ -195,6 +195,18 @@ def run_blocks(case):
                 return dict(e, outcome="short_roi_is_not_completed_with_full_slices", out=[])
             if not np.array_equal(asm.extract(roi=yx, **kw), full[(slice(None),) * len(prefix) + yx], equal_nan=True):
                 return dict(e, outcome="window_differs_from_the_full_extract", out=[])
+        # History: Extract is a function of (blocks, window) alone.  For every other case the measured extraction is preceded by the same
+        # extraction whose RESULT the caller then overwrites (it owns it), and the input blocks are compared with their copies afterwards:
+        # a result that aliases the assembler's blocks (or the caller's inputs) shows up in the measured window / as modified inputs.
+        scribble = blocks and (w[1] + w[3] + len(case["present"]) + nplanes) % 2 == 0
+        keep = {k: v.copy() for k, v in blocks.items()} if scribble else {}
+        if scribble:
+            for roi0 in (yx, None):
+                r0 = asm.extract(roi=roi0, **kw) if roi0 is not None or kw else asm.extract()
+                try:
+                    r0[...] = np.array(1, dtype=r0.dtype) if r0.dtype == np.bool_ else np.array(77, dtype=r0.dtype)
+                except ValueError:
+                    pass          # a read-only result cannot be scribbled on
         if case["pick"]:
             p = case["pick"][0]
             idx = np.unravel_index(p, prefix + postfix)
@@ -208,6 +220,8 @@ def run_blocks(case):
             # -> planes first
             out = np.moveaxis(out.reshape(prefix + (w[1] - w[0], w[3] - w[2]) + postfix), [len(prefix), len(prefix) + 1], [-2, -1])
             out = out.reshape((nplanes, w[1] - w[0], w[3] - w[2]))
+        if scribble and any(not np.array_equal(blocks[k], keep[k], equal_nan=True) for k in keep):
+            return dict(e, outcome="input_blocks_were_modified_through_an_earlier_result", out=[])
         if out.dtype != dtype and not (case["fillarg"] and np.can_cast(dtype, out.dtype)):
             return dict(e, outcome=f"dtype_changed_to_{out.dtype}", out=[])
         if np.issubdtype(out.dtype, np.floating):
